@@ -142,7 +142,61 @@ def builtin_care(atoms, cols, ones):
                     and isinstance(x[3], tuple) and x[3][0] == "enum"]
             if len(both) == 2:
                 care &= ones & (~ka | cols[both[0]] | cols[both[1]])
+    # two squares known to differ are never both "the square at hand": a member of pawn_attacks(sq(F, _), _) does not
+    # stand on file F (pawns capture onto the neighbouring files)
+    singles = [a for a in atoms if isinstance(a, tuple) and a and a[0] == "bbof" and isinstance(a[1], tuple) and a[1]]
+    for i, a in enumerate(singles):
+        for b in singles[i + 1:]:
+            for x, y in ((a[1], b[1]), (b[1], a[1])):
+                if x[0] == "elem" and y[0] == "sq" and off_file(x[1], y[1]):
+                    care &= ones & ~(cols[a] & cols[b])
     return care
+
+
+def expand_bool(e):
+    """a canonical ('bool', atoms, table) node written out as a set expression again"""
+    if not (isinstance(e, tuple) and e and e[0] == "bool"):
+        return e
+    atoms, tt = e[1], e[2]
+    n = len(atoms)
+    out = None
+    for r in range(1 << n):
+        if not (tt >> r) & 1:
+            continue
+        term = None
+        for i, a in enumerate(atoms):
+            lit = a if (r >> i) & 1 else ("not", a)
+            term = lit if term is None else ("and", term, lit)
+        if term is None:
+            return ("bbconst", FULL)
+        out = term if out is None else ("or", out, term)
+    return out if out is not None else ("bbconst", 0)
+
+
+def off_file(S, F):
+    """every member of the set S is known to stand off file F: S is contained in pawn_attacks(sq(F, r), c) for some r, c"""
+    def conj(e):
+        if isinstance(e, tuple) and e and e[0] == "and":
+            return conj(e[1]) + conj(e[2])
+        return [e]
+    try:
+        for t in subterms_(S, lambda z: isinstance(z, tuple) and z and z[0] == "pawnatt" and isinstance(z[1], tuple) and z[1] and z[1][0] == "sq" and z[1][1] == F):
+            if subset(expand_bool(S), t):
+                return True
+    except Exception:
+        pass
+    return False
+
+
+def subterms_(e, pred, out=None):
+    if out is None:
+        out = []
+    if isinstance(e, tuple):
+        if pred(e):
+            out.append(e)
+        for x in e:
+            subterms_(x, pred, out)
+    return out
 
 
 def canon(e):
